@@ -230,6 +230,40 @@ def kt_obs(tier):
     obs.append(kt_ob('c16.FLOOR[integers]', sp_floor, family='c16.rounding',
                      bounds='FLOOR(v, s): every integer v in -10^9..10^9, significance s in -1000..1000: s * floor(v / s); #NUM! for v > 0 > s; #DIV/0! for s = 0 (v != 0)', cost=20, timeout=300))
 
+    def sp_ceiling(scon):
+        def spec():
+            v = z3.Int('v')
+            f = inspect.unwrap(XM.CEILING)
+
+            def encode():
+                leaves, it = K.explore(f, [v, scon], [v >= -10 ** 9, v <= 10 ** 9], MM.MATH_MODELS)
+                return leaves, it, {'v': v}
+
+            def bad(l):
+                if l.kind == 'raise':
+                    return True if l.value != 'NumExcelError' else z3.Not(z3.And(z3.BoolVal(scon < 0), v > 0))
+                if scon == 0:
+                    return K.to_real(l.value) != 0
+                exp = z3.RealVal(scon) * z3.ToReal(-z3.ToInt(-(z3.ToReal(v) / z3.RealVal(scon))))
+                return z3.Or(z3.And(z3.BoolVal(scon < 0), v > 0), K.to_real(l.value if not isinstance(l.value, MM.MDecimal) else l.value.real) != exp)
+
+            def replay(a):
+                got = nat(XM.CEILING, a['v'], scon)
+                if scon < 0 < a['v']:
+                    exp = ('raise', 'NumExcelError')
+                elif scon == 0:
+                    exp = ('num', 0.0)
+                else:
+                    exp = ('num', float(scon * math.ceil(a['v'] / scon)))
+                return got == exp, f'CEILING({a["v"]}, {scon}) = {got}, expected {exp}'
+            smp = [{'v': x} for x in (7, -7, 0, 10, -10, 1, 999999937)]
+            return dict(encode=encode, bad=bad, replay=replay, norm=norm, native=lambda a: nat(XM.CEILING, a['v'], scon), samples=smp, show=lambda a: f'CEILING({a["v"]}, {scon})')
+        return spec
+    for scon in (1, 2, 5, 10, 360, -1, -2, -10, 0):
+        obs.append(kt_ob(f'c16.CEILING[significance {scon}]', sp_ceiling(scon), family='c16.rounding',
+                         bounds=f'CEILING(v, {scon}): every integer v in -10^9..10^9: the multiple of the significance at or above v/s in the direction of the significance (s * ceil(v/s)); '
+                                '#NUM! for v > 0 > s; 0 for s = 0', cost=5, timeout=200))
+
     def sp_mod(bcon):
         def spec():
             a_, b_ = z3.Int('a'), z3.Int('b')
